@@ -295,6 +295,17 @@ def render_strf(fmt, f, off, t_us):
                                        abs(off) // 60, abs(off) % 60))
         elif d == "s":
             out.append("%d" % (t_us // 10 ** 6))
+        elif d in "aAbBy":
+            # directives only the standard library's strftime knows (the
+            # operator falls back to it): C locale names, gregorian dates in
+            # the years 1000-9999 only
+            if not 1000 <= f["y"] <= 9999:
+                return None
+            out.append({"a": WEEKDAY_ABBR[f["wd"] - 1],
+                        "A": WEEKDAY_FULL[f["wd"] - 1],
+                        "b": MONTH_ABBR[f["m"] - 1],
+                        "B": MONTH_FULL[f["m"] - 1],
+                        "y": "%02d" % (f["y"] % 100)}[d])
         else:
             raise ValueError("directive %%%s not modelled" % d)
     return "".join(out)
@@ -308,3 +319,23 @@ def split_printed_numbers(text):
     nums = [Fraction(x) for x in re.findall(
         r"\d+(?:\.\d+)?(?:e[-+]?\d+)?", text)]
     return neg, nums
+
+
+WEEKDAY_ABBR = ["Mon", "Tue", "Wed", "Thu", "Fri", "Sat", "Sun"]
+MONTH_ABBR = ["Jan", "Feb", "Mar", "Apr", "May", "Jun", "Jul", "Aug", "Sep",
+              "Oct", "Nov", "Dec"]
+
+
+def render_ctime(f):
+    """C `ctime` notation with a zero-padded day: '%a %b %d %H:%M:%S %Y'
+    (gregorian, years 1000-9999 only)."""
+    if not 1000 <= f["y"] <= 9999:
+        return None
+    return "%s %s %02d %02d:%02d:%02d %04d" % (
+        WEEKDAY_ABBR[f["wd"] - 1], MONTH_ABBR[f["m"] - 1], f["d"], f["H"],
+        f["M"], f["S"], f["y"])
+
+WEEKDAY_FULL = ["Monday", "Tuesday", "Wednesday", "Thursday", "Friday",
+                "Saturday", "Sunday"]
+MONTH_FULL = ["January", "February", "March", "April", "May", "June", "July",
+              "August", "September", "October", "November", "December"]
